@@ -45,10 +45,14 @@ function argVectors(params, full) {
     if (vs.length > 256) vs = vs.slice(0, 256);
   }
   if (!full && vs.length > 16) {
-    // reduced tier: first, last and the diagonal
-    const keep = new Set([0, vs.length - 1]);
-    for (let i = 0; i < vs.length; i += Math.max(1, Math.floor(vs.length / 14))) keep.add(i);
-    vs = vs.filter((_, i) => keep.has(i));
+    // reduced tier: an orthogonal array of strength 2 (16 rows, up to 5 four-level factors): every
+    // pair of values of every two parameters occurs together, unlike a regular sub-sampling of
+    // the product (which kept the last parameter constant)
+    const rows = [];
+    for (let a = 0; a < 4; a++) for (let b = 0; b < 4; b++) {
+      rows.push(params.map((p, k) => { const dom = VALUES[p]; const lvl = k === 0 ? a : k === 1 ? b : (a + (((k - 2) % 3) + 1) * b + Math.floor((k - 2) / 3)) % 4; return dom[lvl % dom.length]; }));
+    }
+    vs = rows;
   }
   return vs;
 }
